@@ -243,7 +243,10 @@ Record sfacts := mksfacts {
   s_noninit_first : bool;      (* is `not field.init` tested BEFORE `field.name not in selections` *)
   s_noninit_err : string;
   s_nodc_err : string;         (* annotation contains no dataclass *)
-  s_invalid_err : string       (* the final else of the resolution chain *)
+  s_invalid_err : string;      (* the final else of the resolution chain *)
+  s_keep_member : bool;        (* a dict selection without the keyword keeps the current member when it is a dataclass instance *)
+  s_leftover_check : bool;     (* after the loop, selections that named no field raise *)
+  s_leftover_err : string
 }.
 
 Section Subgroups.
@@ -290,8 +293,26 @@ Section Subgroups.
         end
     end.
 
-  Section SLoop.
+  (* what one selected field becomes; `rec` is replace_subgroups itself (one unit of fuel less) *)
+  Section SField.
     Variable rec : value -> option sdict -> res value.
+    Definition sfield (m : fmeta) (cur : value) (selection : sel) : res value :=
+      let vos := match selection with
+                 | SDict items => match sget items (s_keyword S) with Some v => v | None => SNone end
+                 | s => s
+                 end in
+      let child := match selection with SDict items => Some (sremove items (s_keyword S)) | _ => None end in
+      let keep := match selection with
+                  | SDict items => s_keep_member S && match sget items (s_keyword S) with None => true | Some _ => false end
+                                   && is_dc cur
+                  | _ => false
+                  end in
+      bind (if keep then Ok cur else resolve m vos) (fun field_value =>
+        match child with
+        | Some (x :: c) => rec field_value (Some (x :: c))          (* if child_selections: *)
+        | _ => Ok field_value
+        end).
+
     Variable cls : string.
     Variable sels : sdict.
     Fixpoint sloop (l : list field) : res dict :=
@@ -307,25 +328,17 @@ Section Subgroups.
                         | None => Err (Raise "ModelMissingMeta")
                         | Some m =>
                             if negb (m_has_dc m) then Err (Raise (s_nodc_err S))
-                            else
-                              let vc := match selection with
-                                        | SDict items =>
-                                            (match sget items (s_keyword S) with Some v => v | None => SNone end,
-                                             Some (sremove items (s_keyword S)))
-                                        | s => (s, None)
-                                        end in
-                              bind (resolve m (fst vc)) (fun field_value =>
-                                bind (match snd vc with
-                                      | Some (x :: c) => rec field_value (Some (x :: c))
-                                      | _ => Ok field_value
-                                      end) (fun nv =>
-                                  bind (sloop r) (fun kw => Ok ((fname f, nv) :: kw))))
+                            else bind (sfield m (fval f) selection) (fun nv =>
+                                   bind (sloop r) (fun kw => Ok ((fname f, nv) :: kw)))
                         end
                end
       end.
-  End SLoop.
+  End SField.
 
-  (* selections that are no field of obj are silently dropped: only replace_kwargs reaches dataclasses.replace *)
+  (* selections.pop(field.name) removed every key that is a field; what is left names no field *)
+  Definition sel_leftover (fs : list field) (sels : sdict) : sdict :=
+    filter (fun kv => negb (has_field fs (fst kv))) sels.
+
   Fixpoint rsub (fuel : nat) (o : value) (selections : option sdict) : res value :=
     match fuel with
     | 0 => Err OutOfFuel
@@ -334,7 +347,12 @@ Section Subgroups.
         | None | Some [] => Ok o                                       (* if not selections: return obj *)
         | Some d =>
             match o with
-            | VDc cls fs => bind (sloop (rsub fuel') cls (unflatten_selection d) fs) (dc_replace o)
+            | VDc cls fs =>
+                let sels := unflatten_selection d in
+                bind (sloop (rsub fuel') cls sels fs) (fun kw =>
+                  if s_leftover_check S && match sel_leftover fs sels with [] => false | _ => true end
+                  then Err (Raise (s_leftover_err S))
+                  else dc_replace o kw)
             | _ => Err (Raise "TypeError")
             end
         end
